@@ -35,6 +35,10 @@ for sid in ids:
     finally:
         subprocess.run(f"git -C {REPO} reset -q --hard HEAD && find {REPO} -name __pycache__ -prune -exec rm -rf {{}} +", shell=True)
 out = "/verif/seeded/RESULTS.json" if not os.environ.get("VERIF_SEED") else f"/verif/seeded/RESULTS.seed{os.environ['VERIF_SEED']}.json"
-old = json.load(open(out)) if os.path.exists(out) else {}
-old.update(res)
-json.dump(old, open(out, "w"), indent=1, sort_keys=True)
+import fcntl
+with open(out + ".lock", "w") as lk:          # several runs (other worktrees, other id subsets) may finish at the same time
+    fcntl.flock(lk, fcntl.LOCK_EX)
+    old = json.load(open(out)) if os.path.exists(out) else {}
+    old.update(res)
+    json.dump(old, open(out, "w"), indent=1, sort_keys=True)
+os.remove(out + ".lock") if os.path.exists(out + ".lock") else None
